@@ -347,6 +347,9 @@ type rcfg struct {
 	EOFw   bool   `json:"eofw,omitempty"`
 	FailAt int    `json:"failat,omitempty"`
 	Extra  int    `json:"extra,omitempty"` // additional Read calls after the end (lifecycle)
+	// Prime: a slow consumer.  Read mode: Read(nil) first (it starts the pipeline and returns), then wait
+	// this many microseconds; WriteTo mode: every Write of the sink takes this long.
+	Prime int `json:"prime,omitempty"`
 }
 
 type robs struct {
@@ -399,11 +402,15 @@ func settledLeak(base int) int {
 type limitedBuf struct {
 	bytes.Buffer
 	limit int
+	delay time.Duration
 }
 
 var errSinkLimit = errors.New("verif: output limit")
 
 func (b *limitedBuf) Write(p []byte) (int, error) {
+	if b.delay > 0 {
+		time.Sleep(b.delay)
+	}
 	if b.limit > 0 && b.Len()+len(p) > b.limit {
 		return 0, errSinkLimit
 	}
@@ -443,6 +450,7 @@ func runReaderDelay(data []byte, cfg rcfg, watchdog time.Duration, outLimit int,
 		out := &limitedBuf{limit: outLimit}
 		var err error
 		if cfg.Mode == "writeto" {
+			out.delay = time.Duration(cfg.Prime) * time.Microsecond
 			var wn int64
 			wn, err = zr.WriteTo(out)
 			o.Calls = 1
@@ -456,6 +464,12 @@ func runReaderDelay(data []byte, cfg rcfg, watchdog time.Duration, outLimit int,
 				bufs = []int{4096}
 			}
 			var buf []byte
+			if cfg.Prime > 0 {
+				if n, e := zr.Read(nil); n != 0 || e != nil {
+					o.Log = append(o.Log, rec{"op": "read", "sz": 0, "n": n, "err": classify(e), "cons": srcPos(src)})
+				}
+				time.Sleep(time.Duration(cfg.Prime) * time.Microsecond)
+			}
 			for k := 0; ; k++ {
 				sz := bufs[k%len(bufs)]
 				if cap(buf) < sz {
